@@ -11,6 +11,7 @@ import CSD.Lemmas.RPDAC2
 import CSD.Lemmas.PFCLocate4
 import CSD.Lemmas.RPFC10
 import CSD.Lemmas.RPDACIter
+import CSD.Lemmas.FM19
 
 namespace CSD.Props.C12
 open CSD CSD.PFC
@@ -159,5 +160,20 @@ theorem table_scans_agree {S : List Str} (hv : validDict S = true) (b : Nat) {dR
     PFC.table (PFC.build b S) = some S ∧ RPFC.extractTable dR = some S := by
   obtain ⟨hne', hn, _, _⟩ := PFC.validDict_facts hv
   exact ⟨PFC.table_build b S hne' hn, RPFC.extractTable_stores hR hne'⟩
+
+/-- **The strings FMINDEX returns do not depend on its parameters**: two dictionaries over the same `S`, built
+from any two suffix arrays with any two sampling steps > 0 (and any `maxlength` that bounds the members), return
+the same strings for `extractPrefix`, `extractSubstr` and `extractTable`. -/
+theorem fmindex_strings_independent_of_parameters {S : List Str} {L₁ L₂ : List FM.Row} {d₁ d₂ : FM.Dict}
+    (hv : validDict S = true) (h₁ : FM.DictOK S L₁ d₁) (h₂ : FM.DictOK S L₂ d₂)
+    (s₁ : FM.BuiltS (FM.mkText S) L₁ d₁.ix) (s₂ : FM.BuiltS (FM.mkText S) L₂ d₂.ix)
+    (m₁ : ∀ s ∈ S, s.length < d₁.maxlength) (m₂ : ∀ s ∈ S, s.length < d₂.maxlength)
+    (p : Str) (hp : p.all validByte = true) (hne : p ≠ []) :
+    d₁.extractPrefix p = d₂.extractPrefix p ∧ d₁.extractSubstr p = d₂.extractSubstr p ∧
+    d₁.extractTable = d₂.extractTable := by
+  refine ⟨?_, ?_, ?_⟩
+  · rw [FM.extractPrefix_spec hv h₁ m₁ p hp hne, FM.extractPrefix_spec hv h₂ m₂ p hp hne]
+  · rw [FM.extractSubstr_spec hv h₁ s₁ m₁ p hp hne, FM.extractSubstr_spec hv h₂ s₂ m₂ p hp hne]
+  · rw [FM.extractTable_spec hv h₁ m₁, FM.extractTable_spec hv h₂ m₂]
 
 end CSD.Props.C12
